@@ -105,6 +105,7 @@ fn cmd_build(a: &Args) -> Result<()> {
         queue_capacity: 2usize << 30,
         fallback_frac: 0.0,
         pack_size: PACK,
+        level: 17,
     };
     let res = util::catch(AssertUnwindSafe(|| create_like_cli(&co)));
     match res {
